@@ -78,6 +78,9 @@ func c01(c *Ctx) {
 		if i%c.Shards != c.Shard {
 			continue
 		}
+		if !c.Thorough() && (i/c.Shards+int(c.Seed))%2 != 0 {
+			continue // the quick tier replays every other seed string; VERIF_SEED alternates the half
+		}
 		for _, lang := range allLangs {
 			base := l4Case{Lang: lang, Comments: true, Src: s}
 			if _, ok := base.tree(); !ok {
